@@ -1,11 +1,20 @@
 """C06 - ragged-array writes keep all views coherent over any operation history."""
-from pyvc.runner import Run, resolve_failures
+from pyvc.runner import Run, Unit, resolve_failures
 from props.C05 import index_units
 
 
 def run(tier, seed, update_lock=False):
     R = Run('C06', 'other', tier, seed)
-    units = index_units(set(R.excluded()) | {'ra-2d-slice-empty-row'})     # (the empty-row TypeError is C05's listed finding; here it is a helper precondition)
+    from contracts import ra_setitem as RS
+    RA = 'enspara/ra/ra.py'
+    MUTS = [('write-skips-the-row-check', RA, "                iis_1d = _convert_from_2d(\n                    iis, lengths=self.lengths, starts=self.starts)\n                # concatenates", "                iis_1d = _convert_from_2d(\n                    iis, lengths=self.lengths, starts=self.starts, error_check=False)\n                # concatenates"),
+            ('extra-cell-written', RA, "                self._data[iis_1d] = value_1d\n                self._array = np.array(\n                    partition_list(self._data, self.lengths), dtype='O')\n                return", "                self._data[iis_1d] = value_1d\n                self._data[0] = value_1d\n                self._array = np.array(\n                    partition_list(self._data, self.lengths), dtype='O')\n                return")]
+    set_unit = Unit('ra-setitem[(rows, cols) paired, scalar]', RS.registry(), keys=[RS.F + 'RaggedArray.__setitem__'], mutants=MUTS, budget=20)
+    set_units = [set_unit,
+                 Unit('ra-setitem[rows, lo:hi, scalar]', RS.registry_slice('rows-slice', False, False, {'ra-2d-slice-empty-row'}, (True, True)), keys=[RS.F + 'RaggedArray.__setitem__'], budget=40,
+                      mutants=[('slice-write-skips-the-row-check', RA, "            iis_1d = _convert_from_2d(\n                iis, lengths=self.lengths, starts=self.starts)\n            if _is_iterable(value):", "            iis_1d = _convert_from_2d(\n                iis, lengths=self.lengths, starts=self.starts, error_check=False)\n            if _is_iterable(value):")]),
+                 Unit('ra-setitem[:, :, scalar]', RS.registry_slice('slice-slice', True, True, {'ra-2d-slice-empty-row'}, (True, True)), keys=[RS.F + 'RaggedArray.__setitem__'], budget=40)]
+    units = set_units + index_units(set(R.excluded()) | {'ra-2d-slice-empty-row'})     # (the empty-row TypeError is C05's listed finding; here it is a helper precondition)
     #      # every 2-D write computes its flat targets with the same helpers as the reads
     for u in units:
         R.prove(u)
@@ -17,7 +26,8 @@ def run(tier, seed, update_lock=False):
               args=['--prop=C06', '--exclude=' + ','.join(R.excluded())])
     R.report_known('ra.py')
     resolve_failures(R, 'ra.py', lambda f: None)
-    R.clauses = [{'clause': 'the flat target of a paired (row, column) write lies inside the addressed row (never a neighbouring row\'s cell), out-of-row targets raise IndexError, the caller\'s index arrays are unchanged', 'status': 'proved (SMT on the real _convert_from_2d / _handle_negative_indices / _slice_to_list)'},
+    R.clauses = [{'clause': 'RaggedArray.__setitem__ with a scalar value, against the list of rows, for paired (row, column) index arrays, for a[rows, lo:hi] = v with a row array and for a[:, :] = v: exactly the addressed cells of the flat data receive the value, every other cell keeps its value, the row lengths are unchanged, IndexError exactly when an element lies outside its row, re-partitioning never raises (flat data length = sum of lengths)', 'status': 'proved (SMT on the real method, composed from the helper contracts; the rebuilt object-array view is not modelled)'},
+                 {'clause': 'the flat target of a paired (row, column) write lies inside the addressed row (never a neighbouring row\'s cell), out-of-row targets raise IndexError, the caller\'s index arrays are unchanged', 'status': 'proved (SMT on the real _convert_from_2d / _handle_negative_indices / _slice_to_list)'},
                  {'clause': 'after every history every observer (rows, flat data, lengths, starts, element / column reads, reductions, comparisons) agrees with the model', 'status': 'bounded'},
                  {'clause': 'operators act element-wise, keep the row structure, return new objects, never alter operands; building by copy never aliases the caller\'s data', 'status': 'bounded'}]
     return R.finish('Bounded stand-in (model-based run-time contract over operation histories).', update_lock=update_lock)
